@@ -38,7 +38,7 @@ import (
 )
 
 const preamble = `From Coq Require Import List NArith ZArith String.
-From Fabio Require Import Lib.Outcome Lib.Bytes Lib.Pack Model.WtF64 Model.TableCmd Model.RouteText Model.RouteCmd Check.C14.
+From Fabio Require Import Lib.Outcome Lib.Bytes Lib.Pack Model.WtF64 Model.TableCmd Model.RouteText Model.RouteCmd Model.ServiceWatch Check.C14.
 From Fabio Require Check.C05.
 Import ListNotations.
 Local Open Scope N_scope.
@@ -1215,6 +1215,9 @@ func directed() []fixed {
 
 func main() {
 	run := vh.Start("C14")
+	// the loop around makeConfig: the real ServiceMonitor.Watch against a fake consul (watch.go);
+	// own random stream, the drivers run (mostly sleep) beside the rest; the cases are written last
+	finishWatch := startWatch(run)
 	for _, d := range directed() {
 		doRegs(run, "directed-fixed", d.prefix, d.env, d.es)
 	}
@@ -1394,5 +1397,6 @@ func main() {
 			doQuote(run, s)
 		}
 	}
+	finishWatch()
 	run.Finish(preamble, run.Scale(160, 400))
 }
